@@ -43,6 +43,7 @@ import (
 	"log"
 	"net"
 	"os"
+	"strings"
 	"sync"
 	"sync/atomic"
 	"time"
@@ -535,7 +536,10 @@ func (server *SugarDB) handleConnection(conn net.Conn) {
 		}
 		if err != nil {
 			log.Println(err)
-			if _, err = w.Write([]byte(fmt.Sprintf("-Error %s\r\n", err.Error()))); err != nil {
+			// An error reply is a single line: the message may quote client-supplied bytes (key names,
+			// field names, arguments), so CR and LF in it are replaced to keep the reply one frame.
+			message := strings.NewReplacer("\r", " ", "\n", " ").Replace(err.Error())
+			if _, err = w.Write([]byte(fmt.Sprintf("-Error %s\r\n", message))); err != nil {
 				log.Println(err)
 			}
 			continue
